@@ -589,6 +589,10 @@ class Fx:
                 if want == NAT and c >= 0:
                     return Val(str(c), NAT)
                 return Val(str(c) if c >= 0 else "(%d)" % c, NUM)
+            if isinstance(A.consts.get(e.id), tuple) and len(A.consts[e.id]) >= 2 and all(isinstance(x, int) and not isinstance(x, bool) for x in A.consts[e.id]):
+                # a module-level tuple of integers (`_TC_DELAY_RANDOM_INTERVAL`): its value as evaluated from the source
+                tup = A.consts[e.id]
+                return Val("(" + ", ".join(str(c) if c >= 0 else "(%d)" % c for c in tup) + ")", T("Tuple", *[NUM for _ in tup]))
             self.fail("unknown name " + e.id, e)
         if isinstance(e, (ast.List, ast.Dict, ast.Set)) and not (e.elts if not isinstance(e, ast.Dict) else e.keys):
             if want is None:
@@ -1065,7 +1069,7 @@ class Fx:
     def eq_text(self, a, b, node):
         """`a == b` (Python calls a.__eq__(b))"""
         t = a.ty
-        if t.k in ("Num", "Nat", "Str", "Bool"):
+        if t.k in ("Num", "Nat", "Str", "Bool", "Bytes"):
             return "(decide (%s = %s))" % (a.text, b.text)
         if t.k == "Opaque":
             return "(%s %s %s)" % (self.area.eq_of(t, self), a.text, b.text)
@@ -1183,7 +1187,7 @@ class Fx:
             if ent:
                 if "returns" not in ent:
                     self.fail("the effect %s has no value" % m, e)
-                return Val(ent["returns"][1], A.ty(ent["returns"][0]))
+                return Val(ent["returns"][1].format(*self.last_effect_vals), A.ty(ent["returns"][0]))
             b = self.unwrap(self.expr(f.value), e)
             if b.ty.k == "Dict":
                 eq = A.eq_of(b.ty.a[0], self)
@@ -1201,6 +1205,21 @@ class Fx:
                     self.emit("let %s := PyDict.popD %s %s %s" % (r, eq, b.text, k.text))
                     self.assign_path(b.path, "%s.2" % r, e)
                     return Val("%s.1" % r, T("Opt", b.ty.a[1]), fresh=True)
+                if m == "pop" and len(e.args) == 2 and b.path is not None and b.ty.a[1].k in ("List", "Dict", "Set") \
+                        and isinstance(e.args[1], (ast.List, ast.Dict)) and not getattr(e.args[1], "elts", None) and not getattr(e.args[1], "keys", None):
+                    # `d.pop(k, [])`: the stored container leaves the dict (no alias remains), or a new empty one
+                    k = self.expr(e.args[0], b.ty.a[0])
+                    r = self.fresh("pp")
+                    self.emit("let %s := PyDict.popD %s %s %s" % (r, eq, b.text, k.text))
+                    self.assign_path(b.path, "%s.2" % r, e)
+                    return Val("(%s.1.getD %s)" % (r, self.empty_of(b.ty.a[1], e)), b.ty.a[1], fresh=True)
+                if m == "pop" and len(e.args) == 1 and b.path is not None:
+                    k = self.expr(e.args[0], b.ty.a[0])
+                    r = self.fresh("pp")
+                    self.monadic()
+                    self.emit("let %s ← PyDict.pop %s %s %s" % (r, eq, b.text, k.text))
+                    self.assign_path(b.path, "%s.2" % r, e)
+                    return Val("%s.1" % r, b.ty.a[1], fresh=True)
                 if m == "setdefault" and len(e.args) == 2:
                     return self.setdefault(b, e, eq)
             if b.ty.k in ("List", "Set") and m == "copy" and not e.args:
@@ -1751,7 +1770,8 @@ class Fx:
                 else:
                     vals.append(atom(self.expr(inner, t).text))
             self.info.effects = True
-            self.emit("effects := effects ++ [%s]" % ent["lean"].format(*vals))
+            self.emit("effects := effects ++ [%s]" % ent["lean"].format(*vals, recv=atom(recv.text)))
+            self.last_effect_vals = vals
             return ent
         return False
 
@@ -2449,7 +2469,10 @@ def gen_area(repo, spec, common, cenv):
         if c.get("identity"):
             lines.append("  deriving Inhabited")
         lines.append("")
-        lines.append(translate_init(area, cdef, c))
+        if c.get("no_init"):
+            lines.append("/-! `%s.__init__` is not translated (spec `no_init`): the equations state the fresh object by hand -/\n" % c["py"])
+        else:
+            lines.append(translate_init(area, cdef, c))
     names = set()
     for k in seq:
         fn, fs, cls = todo[k]
